@@ -4,6 +4,15 @@ Postcondition monitors sit on ``System.supersize`` and ``System.rotate`` (they
 fire on every call, also the ones ``rotate`` and the cell-conversion dump
 styles make internally); the two dump styles are judged at the call site.  The
 judge is ``vf.oracle.c04_crystal.compare`` (independent of atomman).
+
+Frame of "maps through the returned rotation": every call is evaluated under both
+readings (plain rotation about the Cartesian origin / cell corners identified).
+One call may satisfy either, but calls that can tell the readings apart (cell
+corner off the lattice) must all satisfy the SAME one: within a case (``end_case``)
+and within a run (``note_reading``).  The groups ``rotate-family`` and
+``conversions-handed`` apply left- and right-handed descriptions (of the vector
+set and of the unit cell) to one crystal and compare the results with one another
+(``same_crystal_pair``), which does not depend on the reading at all.
 """
 from __future__ import annotations
 
